@@ -50,6 +50,9 @@ def parseOp (pw : Pid → List Wid) (j : Json) : Except String (List Op) := do
   | "finalize" => return [.finalize p]
   | "idle" => return [.idleWorkers p]
   | "call" => return [.callW p (← Driver.getNat j "w")]
+  | "alive_workers" => return [.aliveWorkers p false]
+  | "is_alive" => return [.isAliveW p (← Driver.getNat j "w")]
+  | "acquired_workers" => return [.acquiredWorkers p]
   | "run" => return runScript pw p (← Driver.getNat j "tries")
   | "call_and_wait" => return callAndWaitScript pw p
   | "as_completed" => return asCompletedScript p (← (← Driver.getArr j "body").toList.mapM parseBody)
@@ -62,6 +65,7 @@ def resJson : Res → Json
   | .workers ws => toJson ws
   | .worker none => Json.str "none"
   | .worker (some w) => toJson w
+  | .code n => Json.str s!"code{n}"
 
 def obsJson (nw : Nat) (npools : Nat) (pw : Pid → List Wid) (W : Wid → Worker) : List (String × Json) :=
   let ws := List.range nw
@@ -285,6 +289,7 @@ def parseEOp (j : Json) : Except String EOp := do
   | "send" => return .send (← Driver.getNat j "w") (← Driver.getBool j "alive")
   | "deliver" => return .deliver (← Driver.getNat j "k") (← Driver.getBool j "fail")
   | "tick" => return .tick (← Driver.getNat j "d")
+  | "shutdown" => return .shutdown (← Driver.getNat j "w")
   | s => throw s!"bad env op {s}"
 
 /-- (real-code label, program point) of the step thread `t` is about to take -/
@@ -303,7 +308,10 @@ def xlabel (x : X) (t : Tid) : String × String :=
     | .vRdLocked => (s!"locked L{w}", "vRdLocked") | .vRdPool => (s!"rdpool {w}", "vRdPool")
     | .lRdLocked => (s!"locked L{w}", "lRdLocked") | .lRdPool => (s!"rdpool {w}", "lRdPool")
     | .cEnter => (s!"acquire SL{w}", "cEnter") | .cExit => (s!"release SL{w}", "cExit")
-    | .iEnter => (s!"acquire SL{w}", "iEnter")
+    | .iEnter =>
+      match x.env.mic t with
+      | .strAcq _ => ("acquire RL", "r.strAcq") | .strRel _ => ("release RL", "r.strRel")
+      | _ => (s!"acquire SL{w}", "iEnter")
     | .iExit =>
       match x.env.mic t with
       | .foldAcq .. => ("acquire RL", "i.foldAcq") | .foldRel .. => ("release RL", "i.foldRel")
@@ -311,6 +319,35 @@ def xlabel (x : X) (t : Tid) : String × String :=
       | _ => (s!"release SL{w}", "iExit")
     | .kEnter => (s!"acquire SL{w}", "kEnter") | .kExit => (s!"release SL{w}", "kExit")
   | none =>
+    match x.env.ctl t with
+    | .rTick .. => ("clock", "c.rTick")
+    | .rCond _ _ ticker => ("clock", if x.env.now - ticker < 180 then "c.rCond" else "c.rCond.err")
+    | .rAlive .. =>
+      (match lastRes x t with
+       | some (.workers (_ :: _)) => ("clock", "c.rAlive.ret")
+       | _ => ("sleep", "c.rAlive.sleep"))
+    | .rNext .. => ("sleep", "c.rNext")
+    | .rClockN _ _ st ow =>
+      ("clock", if x.env.now - st > 180 then "c.rClockN.timeout" else if ow.isSome then "c.rClockN.submit" else "c.rClockN.again")
+    | .rSub .. =>
+      (match lastRes x t with
+       | some .unit => ("fwait", "c.rSub.wait")
+       | some (.code 1) => ("sleep", if x.env.now - x.env.sticker t < x.env.thr then "c.rSub.sleepAlive" else "c.rSub.disconnected")
+       | _ => ("sleep", "c.rSub.sleepCap"))
+    | .sSub .. =>
+      (match lastRes x t with
+       | some (.code 1) => ("sleep", if x.env.now - x.env.sticker t < x.env.thr then "c.sSub.sleepAlive" else "c.sSub.disconnected")
+       | _ => ("sleep", "c.sSub.sleepCap"))
+    | .cAcq .. => ("clock", "c.cAcq")
+    | .cWait .. => ("wdone", "c.cWait")
+    | .rErr _ | .fin .. => ("end", "end")
+    | .idle =>
+    match x.env.prog t with
+    | .run .. :: _ => ("start", "c.start.run")
+    | .callAndWait .. :: _ => ("start", "c.start.caw")
+    | .submitNB .. :: _ => ("start", "c.start.submit")
+    | .prim :: _ => ("start", "start")
+    | [] =>
     match (x.base.T t).script with
     | _ :: _ => ("start", "start")
     | [] =>
@@ -323,12 +360,16 @@ def xlabel (x : X) (t : Tid) : String × String :=
         match x.env.escript t with
         | .die _ :: _ => ("start", "e.die") | .revive _ :: _ => ("start", "e.revive")
         | .send .. :: _ => ("start", "e.send") | .tick _ :: _ => ("start", "e.tick")
+        | .shutdown _ :: _ => ("start", "e.shutdown")
         | .deliver k fail :: _ =>
           ("start", match x.env.queue with
             | [] => "e.deliver.empty"
-            | q => if fail then "e.deliver.fail" else
+            | q => if x.env.callSt (q.getD (k % q.length) 0) == .cancelled then "e.deliver.cancelled" else
+              if fail then "e.deliver.fail" else
               match x.env.calls[q.getD (k % q.length) 0]? with
               | some (.hb .., _) => "e.deliver.hb" | some (.ping _, _) => "e.deliver.ping"
+              | some (.taskRaise _, _) => "e.deliver.taskRaise"
+              | some (.shutdownC _, _) => "e.deliver.shutdown"
               | _ => "e.deliver.plain")
         | [] => ("end", "end")
 
@@ -338,6 +379,11 @@ structure XSetup where
   nt : Nat
   x0 : X
 
+def isComposite (j : Json) : Bool :=
+  match j.getObjValAs? String "op" with
+  | .ok "run" | .ok "call_and_wait" | .ok "submit" => true
+  | _ => false
+
 def parseX (j : Json) : Except String XSetup := do
   let nw ← Driver.getNat j "nworkers"
   let pools ← parsePools j
@@ -345,64 +391,151 @@ def parseX (j : Json) : Except String XSetup := do
   let thr ← Driver.getInt j "thr"
   let now ← Driver.getInt j "now"
   let reg0 ← (← Driver.getArr j "reg0").toList.mapM (·.getStr?)
+  let mps ← getNatsD j "mp"
   let ths ← Driver.getArr j "threads"
   let mut scripts : List (List Op) := []
   let mut escripts : List (List EOp) := []
+  let mut progs : List (List TOp) := []
   for tj in ths do
     let kind ← Driver.getStr tj "kind"
     let ops ← Driver.getArr tj "ops"
     if kind == "pool" then
-      let os ← ops.toList.mapM (parseOp pw)
-      scripts := scripts ++ [os.flatten]
+      let anyComp := ops.toList.any isComposite
+      let mut sc : List Op := []
+      let mut pg : List TOp := []
+      for oj in ops.toList do
+        if isComposite oj then
+          let p ← Driver.getNat oj "p"
+          let raises := (oj.getObjValAs? String "task").toOption == some "raise"
+          let opn ← Driver.getStr oj "op"
+          let wv := (getOptNat oj "w").getD 0
+          pg := pg ++ [if opn == "run" then TOp.run p raises
+                       else if opn == "submit" then TOp.submitNB p wv raises
+                       else TOp.callAndWait p raises]
+        else
+          sc := sc ++ (← parseOp pw oj)
+          pg := pg ++ [TOp.prim]
+      scripts := scripts ++ [sc]
       escripts := escripts ++ [[]]
+      progs := progs ++ [if anyComp then pg else []]
     else
       scripts := scripts ++ [[]]
       escripts := escripts ++ [← ops.toList.mapM parseEOp]
+      progs := progs ++ [[]]
   let reg : Registry.Reg := fun a =>
     match reg0.getD a "absent" with
     | "alive" => some (some now)
     | "dead" => some none
     | _ => none
-  let env : Env := { reg := reg, now := now, thr := thr, escript := fun t => escripts.getD t [] }
+  let env : Env := { reg := reg, now := now, thr := thr, escript := fun t => escripts.getD t [],
+                     prog := fun t => progs.getD t [], mp := fun w => mps.getD w 1 }
   return ⟨nw, pools, ths.size, ⟨initCfg scripts, env⟩⟩
 
+/-- The pieces a composite operation of pool `p` can start. -/
+def pieceCandidates (pw : Pid → List Wid) (p : Pid) : List Op :=
+  [.aliveWorkers p false, .aliveWorkers p true, .nextIdle p (pw p) true, .finalize p, .acquireAllCall p] ++
+  (pw p).flatMap fun w => [.submitW p w 0, .submitW p w 1, .submitW p w 2]
+
+def ctlPool (x : X) (t : Tid) : Option Pid :=
+  match x.env.ctl t with
+  | .rTick p _ | .rCond p _ _ | .rAlive p _ _ | .rErr p | .rNext p _ _ | .rClockN p _ _ _ | .rSub p _ _
+  | .fin p _ | .cAcq p _ | .cWait p _ _ | .sSub p _ _ => some p
+  | .idle => match x.env.prog t with
+    | .callAndWait p _ :: _ => some p
+    | .submitNB p _ _ :: _ => some p
+    | _ => none
+
+def pushOp (x : X) (t : Tid) (op : Op) : X :=
+  let th := x.base.T t
+  ⟨⟨x.base.W, upd x.base.T t { th with script := op :: th.script }⟩, x.env⟩
+
+/-- `xstep?`, with the prophecy supplied on demand: when the controller of a composite operation wants to start a piece,
+the piece (the one candidate the controller accepts) is put in front of the thread's script first.  Returns the
+configuration the step was taken from (with the pushed piece) and the successor. -/
+def xstepP (pw : Pid → List Wid) (x : X) (t : Tid) : Option (X × X) :=
+  let pushed : Option (X × X) :=
+    match (x.base.T t).cur, ctlPool x t with
+    | none, some p =>
+      (pieceCandidates pw p).findSome? fun op =>
+        let xp := pushOp x t op
+        match xstep? pw xp t with
+        | some x' => if (x'.base.T t).script.length < (xp.base.T t).script.length then some (xp, x') else none
+        | none => none
+    | _, _ => none
+  -- (the piece is always supplied by the prophecy, never taken from the thread's own pending primitive operations)
+  match pushed with
+  | some r => some r
+  | none => (xstep? pw x t).map fun x' => (x, x')
+
 def xenabled (pw : Pid → List Wid) (nt : Nat) (x : X) : List Nat :=
-  (List.range nt).filter fun t => (xstep? pw x t).isSome
+  (List.range nt).filter fun t => (xstepP pw x t).isSome
+
+def outcJson : Outc → Json
+  | .ok => "ok" | .raised => "raised" | .noWorker => "noWorker" | .notStarted => "notStarted"
+  | .disconnected => "disconnected"
 
 def entryJson : Registry.Entry → Json
   | none => Json.str "absent"
   | some none => Json.null
   | some (some t) => toJson t
 
+def threadFinished (x : X) (t : Tid) : Bool :=
+  let c := x.base
+  (c.T t).cur.isNone && (c.T t).script.isEmpty && (x.env.escript t).isEmpty && x.env.mic t == .idle &&
+    x.env.ctl t == .idle && (x.env.prog t).isEmpty
+
 def handleXSched (j : Json) : Except String Json := do
   let s ← parseX j
   let pw := mkPw s.pools
   let sched ← (← Driver.getArr j "sched").toList.mapM (·.getNat?)
+  let nt := s.nt
   let mut x := s.x0
   let mut trace : Array Json := #[]
   let mut enabled : Array Json := #[]
   let mut regs : Array Json := #[]
   let mut accepted := true
+  let mut started : Array (List Op) := Array.replicate nt []      -- operations / pieces started so far, per thread
+  let mut opres : Array (Array Json) := Array.replicate nt #[]    -- results per operation of the thread's program
   for t in sched do
     if accepted then
-      let en := xenabled pw s.nt x
-      match xstep? pw x t with
+      let en := xenabled pw nt x
+      match xstepP pw x t with
       | none => accepted := false
-      | some x' =>
-        let (l, pp) := xlabel x t
+      | some (xp, x') =>
+        let (l, pp) := xlabel xp t
         enabled := enabled.push (toJson en)
         regs := regs.push (Json.arr ((List.range s.nw).map fun w => entryJson (x.env.reg w)).toArray)
         trace := trace.push (Json.arr #[toJson t, Json.str l, Json.str pp])
+        if (x'.base.T t).script.length < (xp.base.T t).script.length then
+          started := started.modify t fun l => l ++ (xp.base.T t).script.take 1
+        if (x'.env.outs t).length > (xp.env.outs t).length then
+          opres := opres.modify t fun a => a.push (match (x'.env.outs t).getLast? with | some o => outcJson o | none => Json.null)
+        else if xp.env.ctl t == .idle && x'.env.ctl t == .idle &&
+            (x'.base.T t).results.length > (xp.base.T t).results.length then
+          opres := opres.modify t fun a => a.push (match (x'.base.T t).results.getLast? with | some r => resJson r | none => Json.null)
         x := x'
-  let nt := s.nt
+  -- second pass: the same schedule on the pure `xstep?` from the initial configuration whose scripts are the
+  -- discovered prophecy (pieces in the order they were started, then what was not started yet)
+  let x0' : X := ⟨⟨s.x0.base.W, fun t => { (s.x0.base.T t) with script := (started.getD t []) ++ (x.base.T t).script }⟩, s.x0.env⟩
+  let mut y := x0'
+  let mut k := 0
+  let mut prophecyOk := true
+  for t in sched do
+    if k < trace.size && prophecyOk then
+      match xstep? pw y t with
+      | none => prophecyOk := false
+      | some y' =>
+        let (l, pp) := xlabel y t
+        if trace[k]! != Json.arr #[toJson t, Json.str l, Json.str pp] then prophecyOk := false
+        y := y'
+        k := k + 1
   let c := x.base
   return Json.mkObj ([
-    ("accepted", Json.bool accepted),
+    ("accepted", Json.bool accepted), ("prophecy_ok", Json.bool prophecyOk),
     ("trace", Json.arr trace), ("enabled_trace", Json.arr enabled), ("reg_trace", Json.arr regs),
     ("enabled", toJson (xenabled pw nt x)),
-    ("results", Json.arr ((List.range nt).map fun t => Json.arr (((c.T t).results.map resJson).toArray)).toArray),
-    ("finished", toJson ((List.range nt).map fun t =>
-      (c.T t).cur.isNone && (c.T t).script.isEmpty && (x.env.escript t).isEmpty && x.env.mic t == .idle)),
+    ("results", Json.arr ((List.range nt).map fun t => Json.arr (opres.getD t #[])).toArray),
+    ("finished", toJson ((List.range nt).map fun t => threadFinished x t)),
     ("get", toJson ((List.range s.nw).map fun w => Registry.get x.env.reg w)),
     ("reg", Json.arr ((List.range s.nw).map fun w => entryJson (x.env.reg w)).toArray)]
     ++ obsJson s.nw s.pools.length pw c.W)
@@ -411,7 +544,8 @@ def xkey (nw nt : Nat) (x : X) : String :=
   let e := x.env
   key nw nt x.base ++ toString (repr (
     (List.range nw).map (fun w => (e.reg w, (e.clients w).pend, (e.clients w).hb)),
-    e.rl, e.now, e.calls, e.queue, (List.range nt).map (fun t => (e.mic t, e.escript t))))
+    e.rl, e.now, e.calls, e.queue, (List.range nt).map (fun t => (e.mic t, e.escript t)),
+    (List.range nt).map (fun t => (e.ctl t, e.prog t, e.outs t, e.sticker t, e.tcalls t))))
 
 /-- Breadth-first search of the product for, per program point, a shortest schedule whose last step
 is taken at that program point (model-guided coverage: the harness replays them on the real code). -/
@@ -427,10 +561,10 @@ partial def xcover (pw : Pid → List Wid) (nw nt : Nat) (x0 : X) (limit : Nat) 
     for (x, path) in frontier do
       states := states + 1
       for t in List.range nt do
-        match xstep? pw x t with
+        match xstepP pw x t with
         | none => pure ()
-        | some x' =>
-          let pp := (xlabel x t).2
+        | some (xp, x') =>
+          let pp := (xlabel xp t).2
           if !(found.any fun f => f.1 == pp) then
             found := (pp, (t :: path).reverse) :: found
           let k := xkey nw nt x'
